@@ -119,6 +119,30 @@ def run_frames(rep, cases):
                     outcome, out = call(pa.DataFrameSchema({spec["name"]: pcol}), df, lazy=lazy)
                     judge(rep, dict(case, entry="DataFrameSchema+parser"), "DataFrameSchema+parser", df, before, outcome,
                           out, pd.DataFrame)
+            # a user parser that edits its argument in place and returns it (legal: it is handed pandera's own copy)
+            def _edit_in_place(s_):
+                if len(s_):
+                    s_.iloc[:] = s_.iloc[::-1].values
+                return s_
+            try:
+                kw = A.component_kwargs(dict(spec, coerce=False, default=None))
+                kw.pop("default", None)
+                ipss = pa.SeriesSchema(parsers=[pa.Parser(_edit_in_place)], **kw)
+                ipcol = pa.Column(name=spec["name"], required=spec["required"], parsers=[pa.Parser(_edit_in_place)], **kw)
+            except Exception:  # noqa: BLE001
+                ipss = ipcol = None
+            if ipss is not None:
+                for lazy in (False, True):
+                    for entry, schema_, mk in (("SeriesSchema+in-place parser", ipss, lambda: A.frame_of(D)[spec["name"]]),
+                                               ("Column+in-place parser", ipcol, lambda: A.frame_of(D)),
+                                               ("DataFrameSchema+in-place parser", pa.DataFrameSchema({spec["name"]: ipcol}),
+                                                lambda: A.frame_of(D))):
+                        obj = mk()
+                        before = norm(snap(obj))
+                        outcome, out = call(schema_, obj, lazy=lazy)
+                        case = {"entry": entry, "spec": dict(spec, coerce=False, default=None), "frame": D, "lazy": lazy}
+                        rep.case(case, nontrivial=len(set(map(repr, A.frame_of(D)[spec["name"]].tolist()))) > 1)
+                        judge(rep, case, entry, obj, before, outcome, out, pd.Series if entry.startswith("Series") else pd.DataFrame)
             # the same column as a SeriesSchema
             try:
                 ss = A.series_schema_of(dict(spec, name=None), index_spec=S["index"])
